@@ -1,11 +1,16 @@
 use vstd::prelude::*;
-use crate::shims::net2::IpAddr;
-// the filter itself is opaque here (it holds std::net::IpAddr / HashSet); what `matches` computes is decided on the real code by
-// the Kani harnesses k_wildcard_matches_v4 / k_filter_other_variants; the accept loop only needs "matches == spec_matches"
-pub struct AddressFilter { pub x: u8 }
+// std::net::IpAddr is an opaque value in this unit; what `matches` computes is decided on the real code by the Kani harnesses
+// k_wildcard_matches_v4 / k_filter_other_variants; the accept loop and the constructors only need "matches == spec_matches"
+#[verifier::external_type_specification]
+#[verifier::external_body]
+pub struct ExIpAddr(std::net::IpAddr);
+pub type IpAddr = std::net::IpAddr;
+
+//@item rodbus/src/server/address_filter.rs | WildcardIPv4 | derive=
+//@item rodbus/src/server/address_filter.rs | AddressFilter | derive=
 impl AddressFilter {
-    pub uninterp spec fn spec_matches(&self, addr: IpAddr) -> bool;
-    #[verifier::external_body]
-    pub fn matches(&self, addr: IpAddr) -> (r: bool) ensures r == self.spec_matches(addr), { unimplemented!() }
+    pub uninterp spec fn spec_matches(&self, addr: std::net::IpAddr) -> bool;
+//@fn rodbus/src/server/address_filter.rs | AddressFilter::matches | tags=C16 | ext_body
+//@|    ensures r == self.spec_matches(addr),
 }
-//@trusted AddressFilter::matches: opaque in the accept-loop unit (its semantics: Kani harnesses on the real code)
+//@trusted AddressFilter::matches: assumed contract (external_body) in the accept-loop unit - its semantics is decided by Kani harnesses on the real code
